@@ -32,12 +32,15 @@ impl Scale {
 /// Loss / delay budget under which no *legitimate* retransmit exhaustion can occur: a segment is
 /// sent at passes 0, thr, …, max·thr and the connection aborts at pass (max+1)·thr; the pass counter
 /// is not reset when the handshake completes, which can cost the first segment up to thr−1 passes.
-/// With `d` drops and every packet held at most `h` rounds: `2h < (max − d)·thr`.
+/// The answer to a segment held `h` rounds (and itself held `h` rounds) is processed 2h + 2 passes
+/// later; a SYN is one pass old when it first leaves. With `d` drops: `2h + max(2, thr) < (max + 1 − d)·thr`.
 pub fn budget(r: &mut Rng, cfg: &Cfg) -> (usize, u32) {
     let (thr, max) = (cfg.retxthr as usize, cfg.retxmax as usize);
     let d = r.range(0, max.saturating_sub(1) as u64) as usize;
-    let room = (max - d) * thr; // need 2h < room
-    let hmax = if room == 0 { 0 } else { (room - 1) / 2 };
+    // need 2h + max(2, thr) < (max + 1 − d)·thr   (mirrors `Spec.withinBudget`)
+    let room = (max + 1 - d) * thr;
+    let fixed = thr.max(2);
+    let hmax = if room > fixed { (room - fixed - 1) / 2 } else { 0 };
     let h = r.range(0, hmax.min(3) as u64) as u32;
     (d, h)
 }
